@@ -504,4 +504,128 @@ theorem inv_doCleanup (cfg : Cfg) (P : Prog) {σ : SM} (k : IKind) (mi : Bool) (
     simp only [Bool.false_and] at h3
     refine ⟨h3, (d1.of_ao a2).of_ao a3⟩
 
+/-! ### the body of the inner loop -/
+
+/-- the observer's `fresh` is the machine's `init` -/
+def InitOK (idle : Status) (σ : SM) : Prop := (ob idle σ).fresh = σ.init
+
+/-- a request arrived in this cycle, or a cleanup sequence is in progress, or no request is waiting -/
+def Q (idle : Status) (σ : SM) : Prop :=
+  (ob idle σ).postedInCycle = true ∨ (σ.reason.isSome = true ∧ σ.statefunc.isSome = true) ∨ σ.nextTask = none
+
+abbrev K (idle : Status) (σ : SM) : Nat := (ob idle σ).callsInCycle
+
+abbrev Inv0 (idle : Status) (ml : Nat) (σ : SM) : Prop := Inv idle ml none false none σ
+
+def StepOK (idle : Status) (ml : Nat) (k0 : Nat) : Step → Prop
+  | .ret τ => Inv0 idle ml τ ∧ InitOK idle τ ∧ Q idle τ ∧ K idle τ ≤ k0 + 1
+  | .brk τ => Inv0 idle ml τ ∧ K idle τ ≤ k0 + 1
+  | .cont τ => Inv0 idle ml τ ∧ InitOK idle τ ∧ τ.statefunc.isSome = true ∧ K idle τ ≤ k0 + 1
+
+/-- changing only fields the coupling does not look at (`init`, `status`, …) -/
+theorem inv_of_eq {mc mi tk} {σ σ' : SM} (htr : σ'.trace = σ.trace) (hsf : σ'.statefunc = σ.statefunc)
+    (hcl : σ'.cleanup = σ.cleanup) (hre : σ'.reason = σ.reason) (hnt : σ'.nextTask = σ.nextTask)
+    (hat : σ'.attrs = σ.attrs) (h : Inv idle ml mc mi tk σ) : Inv idle ml mc mi tk σ' := by
+  have ho : ob idle σ' = ob idle σ := by unfold ob; rw [htr]
+  refine ⟨?_, ?_, ?_, ?_, ?_, ?_, ?_, ?_, ?_, ?_, ?_⟩ <;> simp only [ho, htr, hsf, hcl, hre, hnt, hat]
+  · exact h.good
+  · exact h.cur
+  · exact h.runCleanup
+  · exact h.interrupted
+  · exact h.pending
+  · exact h.attrs
+  · exact h.mustCleanup
+  · exact h.mustInterrupt
+  · exact h.taken
+  · exact h.j0
+  · exact h.j1
+
+theorem stepOK_afterCleanup (cfg : Cfg) (P : Prog) (r : CRes) (k0 : Nat) (h : Inv0 idle ml r.σ)
+    (hsf : r.σ.statefunc.isSome = true) (hk : K idle r.σ ≤ k0 + 1) :
+    StepOK idle ml k0 (afterCleanup cfg P r) := by
+  unfold afterCleanup
+  split
+  · exact ⟨h, hk⟩
+  · rename_i s _
+    obtain ⟨h1, n1⟩ := inv_newState cfg P (some s) h (by intro _ _ _ _ hh; cases hh) (fun _ => Or.inl hsf)
+    refine ⟨h1, ?_, by rw [n1.statefunc]; rfl, by unfold K; rw [n1.calls]; exact hk⟩
+    unfold InitOK; rw [n1.fresh, n1.init]
+
+theorem stepOK_callState (cfg : Cfg) (P : Prog) {σ : SM} (s : Sid) (h : Inv0 idle ml σ)
+    (hsf : σ.statefunc = some s) (hi : InitOK idle σ) (hk : K idle σ < 2 * ml)
+    (hR : σ.nextTask = none ∨ σ.reason.isSome = true) :
+    StepOK idle ml (K idle σ) (callState cfg P σ s) := by
+  have hg := h.good
+  have hmc := h.mustCleanup; have hmi := h.mustInterrupt; have hcur := h.cur; have htk := h.taken
+  simp only [ob] at hmc hmi hcur htk
+  unfold InitOK at hi
+  simp only [ob] at hi
+  unfold K at hk
+  simp only [ob] at hk
+  -- the call event
+  have h1 : Inv0 idle ml (σ.log (.call s σ.init)) ∧ (ob idle (σ.log (.call s σ.init))).inState = true ∧
+      (ob idle (σ.log (.call s σ.init))).fresh = false ∧
+      (ob idle (σ.log (.call s σ.init))).callsInCycle = (ob idle σ).callsInCycle + 1 ∧
+      (ob idle (σ.log (.call s σ.init))).postedInCycle = (ob idle σ).postedInCycle := by
+    refine ⟨⟨?_, ?_, ?_, ?_, ?_, ?_, ?_, ?_, ?_, ?_, ?_⟩, ?_, ?_, ?_, ?_⟩ <;>
+      simp only [SM.log, ob, observe_snoc, Obs.step, always_snoc]
+    · refine ⟨hg, ?_⟩
+      simp [okAll, okInit, okCleanupOnce, okCleanupNotInterrupted, okStopInactive, okLastStart, okPickedUp, okBound,
+        okNoRaise, hmc, hmi, hcur, hsf, htk, hi, hk]
+    · exact h.cur
+    · exact h.runCleanup
+    · exact h.interrupted
+    · exact h.pending
+    · exact h.attrs
+    · exact h.mustCleanup
+    · exact h.mustInterrupt
+    · exact h.taken
+    · exact h.j0
+    · exact h.j1
+  obtain ⟨h1, hin, hfr, hca, hpo⟩ := h1
+  obtain ⟨h2, a2⟩ := inv_applyOutcome cfg (P.state (σ.log (.call s σ.init)).trace s) true h1 hin
+  unfold callState
+  simp only
+  generalize P.state (σ.log (.call s σ.init)).trace s = o at h2 a2 ⊢
+  generalize hσ2 : applyOutcome cfg (σ.log (.call s σ.init)) o = σ2 at h2 a2 ⊢
+  have hsf2 : σ2.statefunc.isSome = true := by rw [a2.statefunc]; simp [SM.log, hsf]
+  have hk2 : K idle σ2 ≤ K idle σ + 1 := by unfold K; rw [a2.calls, hca]; exact Nat.le_refl _
+  have hfr2 : (ob idle σ2).fresh = false := by rw [a2.fresh]; exact hfr
+  cases hret : o.ret with
+  | retry =>
+    simp only [hret, isErrorRet, Bool.and_false] at h2 ⊢
+    have h3 : Inv0 idle ml (clearInit σ2) := inv_of_eq (σ := σ2) (σ' := clearInit σ2) rfl rfl rfl rfl rfl rfl h2
+    refine ⟨h3, ?_, ?_, hk2⟩
+    · unfold InitOK; simp only [clearInit, ob]; exact hfr2
+    · unfold Q
+      simp only [clearInit, ob]
+      rcases a2.task with ⟨t1, _, t3⟩ | ⟨_, t2⟩
+      · by_cases hp : (ob idle σ).postedInCycle = true
+        · left; simp only [ob] at t3 hpo hp; rw [t3, hpo]; exact hp
+        · right
+          rcases hR with hR | hR
+          · right; rw [t1]; exact hR
+          · left; exact ⟨by rw [a2.reason]; exact hR, hsf2⟩
+      · left; exact t2
+  | finish =>
+    simp only [hret, isErrorRet, Bool.and_false] at h2 ⊢
+    exact ⟨inv_of_eq (σ := σ2) (σ' := clearInit σ2) rfl rfl rfl rfl rfl rfl h2, hk2⟩
+  | next s' =>
+    simp only [hret, isErrorRet, Bool.and_false] at h2 ⊢
+    have h3 : Inv0 idle ml (clearInit σ2) := inv_of_eq (σ := σ2) (σ' := clearInit σ2) rfl rfl rfl rfl rfl rfl h2
+    obtain ⟨h4, n4⟩ := inv_newState cfg P (some s') h3 (by intro _ _ _ _ hh; cases hh) (fun _ => Or.inl hsf2)
+    refine ⟨h4, ?_, by rw [n4.statefunc]; rfl, by unfold K; rw [n4.calls]; exact hk2⟩
+    unfold InitOK; rw [n4.fresh, n4.init]
+  | bad =>
+    simp only [hret, isErrorRet, Bool.and_true] at h2 ⊢
+    have h3 : Inv idle ml none true none (clearInit σ2) := inv_of_eq (σ := σ2) (σ' := clearInit σ2) rfl rfl rfl rfl rfl rfl h2
+    obtain ⟨h4, d4⟩ := inv_doCleanup cfg P .error true h3 (fun _ => rfl) hsf2 (fun _ => rfl)
+    exact stepOK_afterCleanup cfg P _ _ h4 (by rw [d4.statefunc]; exact hsf2)
+      (by unfold K; rw [d4.calls]; exact hk2)
+  | raise =>
+    simp only [hret, isErrorRet, Bool.and_true] at h2 ⊢
+    obtain ⟨h4, d4⟩ := inv_doCleanup cfg P .error true h2 (fun _ => rfl) hsf2 (fun _ => rfl)
+    exact stepOK_afterCleanup cfg P _ _ h4 (by rw [d4.statefunc]; exact hsf2)
+      (by unfold K; rw [d4.calls]; exact hk2)
+
 end Frappy.SM
